@@ -12,7 +12,7 @@ EXTENDS VerifTrace, FiniteSets
 
 \* Only the constant-level part of StreamCli is used; its variables are bound to dummies.
 SC == INSTANCE StreamCli WITH
-        KindSet <- {"post"}, ShapeSet <- {}, SchemeSet <- {"dec"}, MSet <- {1}, MRSet <- {1}, MaxCuts <- 0, ClassSet <- {}, AnswerSet <- {"ok"}, TailSet <- {"good"},
+        KindSet <- {"post"}, ShapeSet <- {}, SchemeSet <- {"dec"}, MSet <- {1}, MRSet <- {1}, MaxCuts <- 0, ClassSet <- {}, AnswerSet <- {"ok"}, TailSet <- {"good"}, RetrySet <- {"none"},
         FixScanner <- FALSE, FixCursor <- FALSE, Fix5xx <- FALSE,
         cfg <- [kind |-> "post", ids |-> "all", prime |-> "none", scheme |-> "dec", M |-> 1, mr |-> 1, tail |-> "good"],
         pc <- "done", from <- 0, primed <- FALSE, wire <- 0, ncut <- 0, bodies <- <<>>, recon <- <<>>,
@@ -44,7 +44,7 @@ ScanStrict(e) ==
   /\ e.ended = (IF e.knd = "err" THEN "readerr" ELSE IF e.cls = "field" THEN "malformed" ELSE "clean")
 
 \* ---- session level: code-shaped expectation exported by TLC (strict)
-SameBody(b, x) == /\ b.from = x.from /\ b.primed = x.primed /\ b.cls = x.cls /\ b.knd = x.knd
+SameBody(b, x) == /\ b.from = x.from /\ b.primed = x.primed /\ b.cls = x.cls /\ b.knd = x.knd /\ b.rt = x.rt
                   /\ b.c = x.c /\ b.d = x.d
                   /\ b.cls # "none" => (b.n = x.n /\ b.al = x.al)
 SameRecon(r, x) == r.sent = x.sent /\ r.outs = x.outs
